@@ -83,7 +83,7 @@ static void *stack_thread(void *arg) {
 
 static const size_t STK_SIZE = 8u << 20;
 static uint8_t *g_stk;
-static size_t run_on_stack(StackJob &job) {
+static size_t run_on_stack(void *(*fn)(void *), void *arg) {
     if(!g_stk) {
         g_stk = (uint8_t *)mmap(0, STK_SIZE + 4096, PROT_READ | PROT_WRITE, MAP_PRIVATE | MAP_ANONYMOUS | MAP_NORESERVE, -1, 0);
         mprotect(g_stk, 4096, PROT_NONE);            // guard page at the low end
@@ -93,7 +93,7 @@ static size_t run_on_stack(StackJob &job) {
     pthread_attr_t at; pthread_attr_init(&at);
     pthread_attr_setstack(&at, base, STK_SIZE);
     pthread_t th;
-    if(pthread_create(&th, &at, stack_thread, &job) != 0) { pthread_attr_destroy(&at); return 0; }
+    if(pthread_create(&th, &at, fn, arg) != 0) { pthread_attr_destroy(&at); return 0; }
     pthread_join(th, nullptr);
     pthread_attr_destroy(&at);
     size_t i = 0;
@@ -110,7 +110,7 @@ static Verdict do_stack(const Tmpl &t, size_t depth, long limit, size_t chunk, s
     Bytes S = t.gen(depth);
     sim_alloc_reset();
     StackJob job; job.td = td; job.sy = t.sy; job.S = &S; job.limit = limit; job.chunk = chunk; job.place = place;
-    size_t hw = run_on_stack(job);
+    size_t hw = run_on_stack(stack_thread, &job);
     EV.ev("stack %s depth=%zu limit=%ld chunk=%zu -> %s consumed=%zu calls=%zu", t.name, depth, limit, chunk, job.aborted ? "ABORT" : rc_name(job.code), job.consumed, job.calls);
     if(hw_out) *hw_out = hw;
     if(code_out) *code_out = job.code;
@@ -226,7 +226,20 @@ static bool bulk_input(const Bulk &b, size_t k, Syntax sy, Bytes &S, bool handwr
     sim_alloc_free_all_live();
     return ok;
 }
-static Verdict do_bulk(const Bulk &b, size_t k, Syntax sy, size_t chunk, HeapOutcome &ho, size_t *n_out, bool enforce, bool *made) {
+// A flat input (one long string, one long run of segments or fragments, at most 40 levels of nesting) handed over in ONE call, decoded
+// on the painted 8 MiB stack: the stack the decoder uses must not grow with the length of the input (otherwise a long enough input
+// exhausts any stack, and no stack limit stops it, because the guard is only consulted on the way into nested types).
+// Judged: exhaustion (the process dies, exit 79) and a high-water mark beyond FLAT_STACK_MAX (256 KiB: 8x the default limit of 30000; the pinned tree stays under the 64 KiB resolution of the paint).
+static const size_t FLAT_STACK_MAX = 256u << 10;
+struct FlatJob { asn_TYPE_descriptor_t *td; Syntax sy; const Bytes *S; const std::vector<Op> *ops; bool enforce; HeapOutcome *ho; long A; Verdict v; };
+static void *flat_thread(void *arg) {
+    FlatJob *j = (FlatJob *)arg;
+    sim_install_altstack();
+    j->v = do_heap(j->td, j->sy, *j->S, *j->ops, j->enforce, *j->ho, j->A, HEAP_B);
+    return nullptr;
+}
+
+static Verdict do_bulk(const Bulk &b, size_t k, Syntax sy, size_t chunk, HeapOutcome &ho, size_t *n_out, bool enforce, bool *made, size_t *hw_out = nullptr) {
     Bytes S; Verdict v;
     *made = bulk_input(b, k, sy, S, chunk != 0 && chunk != 16384);
     if(!*made) return v;
@@ -239,6 +252,17 @@ static Verdict do_bulk(const Bulk &b, size_t k, Syntax sy, size_t chunk, HeapOut
     if(chunk && sy != SY_UPER) { size_t left = S.size(), step = chunk; while(left > step) { ops.push_back(mkop("deliver", {L((long)step)})); left -= step; if(chunk == 1021) step = 1022; if(chunk <= 2) step = 2; } }
     ops.push_back(mkop("deliver", {"rest"}));
     // segmented strings: the pinned tree holds at most 0.65 bytes per input byte there, so 8 (instead of 24) is already > 4x the measurement
+    if(chunk == 0) {
+        FlatJob job{pdu_by_name(b.decode_as), sy, &S, &ops, enforce, &ho, b.heap_a ? b.heap_a : HEAP_A_BULK, Verdict()};
+        size_t hw = run_on_stack(flat_thread, &job);
+        if(hw_out) *hw_out = hw;
+        v = job.v;
+        EV.ev("bulk whole %s %s n=%zu stack high-water %zu", b.name, syntax_name(sy), S.size(), hw);
+        if(!v.violated && enforce && hw > FLAT_STACK_MAX) {
+            v.violated = true; v.cls = "stack-growth"; v.site = std::string("bulk:") + b.name + "/" + syntax_name(sy);
+            v.detail = "decoding " + L((long)S.size()) + " bytes of flat input in one call used " + L((long)hw) + " bytes of stack (allowed " + L((long)FLAT_STACK_MAX) + ")";
+        }
+    } else
     v = do_heap(pdu_by_name(b.decode_as), sy, S, ops, enforce, ho, b.heap_a ? b.heap_a : HEAP_A_BULK, HEAP_B);
     if(v.violated && v.cls == "heap-bomb") v.site = std::string("bulk:") + b.name + "/" + syntax_name(sy);
     return v;
@@ -277,20 +301,22 @@ static void c15_run(uint64_t seed, uint64_t index, bool thorough) {
         return;
     }
     // ---- bulk runs: enumerate templates x sizes x syntaxes over the indices right after the stack grid, then sample
-    size_t bgrid = (size_t)NBULK * 3 * 4 * 2;
+    size_t bgrid = (size_t)NBULK * 3 * 4 * 3;
     if(index >= grid && (index < grid + bgrid || index % 16 == 2)) {
         size_t bi = index < grid + bgrid ? (size_t)(index - grid) : (size_t)r.below(bgrid);
         static const Syntax bsy[] = {SY_DER, SY_OER, SY_UPER, SY_XER};
-        bool small_chunks = (bi & 1) != 0; bi >>= 1;
+        unsigned delivery = (unsigned)(bi % 3); bi /= 3;          // 0: 16K deliveries, 1: the slow peer, 2: everything in one call (stack measured)
+        bool small_chunks = delivery == 1;
         const Bulk &b = BULKS[bi / 12]; size_t k = BULK_SIZES[(bi / 4) % 3]; Syntax sy = bsy[bi % 4];
         if(small_chunks && k > 140000) k = 140000;            // a slow peer: 1021 bytes per delivery - a prime, so deliveries end in every phase of the 2- and 8-character text units (quadratic re-reading shows here)
-        size_t chunk = index < grid + bgrid ? (small_chunks ? 1021 : 16384) : (size_t)(1 + rs.below(65536));
+        size_t chunk = index < grid + bgrid ? (small_chunks ? 1021 : delivery == 2 ? 0 : 16384) : delivery == 2 ? 0 : (size_t)(1 + rs.below(65536));
         Plan head; head.set("property", "C15"); head.set("program", SIM_PROGRAM); head.set("mode", "bulk"); head.set("template", b.name);
         head.set("size", L((long)k)); head.set("syntax", syntax_name(sy)); head.set("chunk", L((long)chunk)); head.set("budget", "A=" + L(HEAP_A_BULK) + " B=" + L(HEAP_B));
         status_head(head.head_str()); status_ops("op deliver rest\n");
-        HeapOutcome ho; size_t n = 0; bool made = false;
-        Verdict v = do_bulk(b, k, sy, chunk, ho, &n, !calibrate, &made);
+        HeapOutcome ho; size_t n = 0; bool made = false; size_t hw = 0;
+        Verdict v = do_bulk(b, k, sy, chunk, ho, &n, !calibrate, &made, &hw);
         if(!made) { G.add("c15.skip.bulk_input_not_made"); return; }
+        if(chunk == 0) { G.add("c15.fired.bulk_in_one_call"); G.max("c15.flat_stack_high_water_bytes", hw); if(calibrate) G.max(std::string("c15.cal.flat_stack.") + b.name + "." + syntax_name(sy), hw); }
         G.add("c15.decodes"); G.add("c15.bulk_runs"); G.add(std::string("c15.bulk.rc.") + rc_name(ho.code)); G.add("c15.fired.bulk_payload");
         G.max("c15.bulk_max_input_bytes", n); G.seen("c15.heap_cases", hash_str(head.head_str()));
         if(calibrate && n) G.max(std::string("c15.cal.bulk_ratio_x100.") + b.name + "." + syntax_name(sy), (uint64_t)(100.0 * (double)ho.peak / (double)n));
